@@ -24,7 +24,11 @@ pub fn parse_outcome(src: &str) -> J {
         Ok((Err(e), Err(_))) => {
             let errs: Vec<J> = e.errors.iter().map(|pe| {
                 let text = format!("{}", pe);
-                json!({"line": pe.pos.0, "col": pe.pos.1, "msglen": pe.msg.chars().count(), "textlen": text.chars().count()})
+                if text.chars().count() <= 1200 {
+                    json!({"line": pe.pos.0, "col": pe.pos.1, "msglen": pe.msg.chars().count(), "textlen": text.chars().count(), "msgcp": enc::cps(&pe.msg), "textcp": enc::cps(&text)})
+                } else {
+                    json!({"line": pe.pos.0, "col": pe.pos.1, "msglen": pe.msg.chars().count(), "textlen": text.chars().count()})
+                }
             }).collect();
             json!({"k": "err", "errors": errs, "displaylen": format!("{}", e).chars().count()})
         }
